@@ -373,6 +373,59 @@ impl Proxy {
         let _ = sock.send_to(datagram, to).await;
     }
 
+    /// EXT scenario "peer restart": hand `to`'s peer a fresh INIT (new initiate tag, new initial TSN) as if the
+    /// other side had restarted its SCTP stack on the same DTLS association. The record is sealed with the
+    /// sender's write key and a record sequence number far above the live ones.
+    pub async fn forge_init(&self, from: char, itag: u32, itsn: u32) -> bool {
+        let Some(crypto) = self.crypto() else { return false };
+        let (cipher, iv) = if from == 'A' {
+            (&crypto.client_write_cipher, &crypto.keys.client_write_iv)
+        } else {
+            (&crypto.server_write_cipher, &crypto.keys.server_write_iv)
+        };
+        // SCTP packet: common header (vtag 0) + INIT chunk
+        let mut init = Vec::new();
+        init.extend_from_slice(&itag.to_be_bytes());
+        init.extend_from_slice(&(128u32 * 1024).to_be_bytes());
+        init.extend_from_slice(&10u16.to_be_bytes());
+        init.extend_from_slice(&10u16.to_be_bytes());
+        init.extend_from_slice(&itsn.to_be_bytes());
+        init.extend_from_slice(&[0xC0, 0x00, 0x00, 0x04]); // Forward-TSN supported
+        let mut pkt = Vec::new();
+        pkt.extend_from_slice(&5000u16.to_be_bytes());
+        pkt.extend_from_slice(&5000u16.to_be_bytes());
+        pkt.extend_from_slice(&0u32.to_be_bytes());
+        pkt.extend_from_slice(&0u32.to_be_bytes());
+        pkt.push(CT_INIT);
+        pkt.push(0);
+        pkt.extend_from_slice(&((4 + init.len()) as u16).to_be_bytes());
+        pkt.extend_from_slice(&init);
+        let crc = crc32c(&pkt);
+        pkt[8..12].copy_from_slice(&crc.to_le_bytes());
+        // DTLS 1.2 record, epoch 1
+        let full_seq: u64 = (1u64 << 48) | (1u64 << 40) | (self.state.lock().next_id & 0xFFFF);
+        let mut nonce = [0u8; 12];
+        nonce[..4].copy_from_slice(iv);
+        nonce[4..].copy_from_slice(&full_seq.to_be_bytes());
+        let mut aad = [0u8; 13];
+        aad[..8].copy_from_slice(&full_seq.to_be_bytes());
+        aad[8] = 23;
+        aad[9] = 254;
+        aad[10] = 253;
+        aad[11..13].copy_from_slice(&(pkt.len() as u16).to_be_bytes());
+        let mut body = pkt.clone();
+        let Ok(tag) = cipher.encrypt_in_place_detached(Nonce::from_slice(&nonce), &aad, &mut body) else { return false };
+        let mut rec = vec![23u8, 254, 253];
+        rec.extend_from_slice(&full_seq.to_be_bytes());
+        rec.extend_from_slice(&((8 + body.len() + 16) as u16).to_be_bytes());
+        rec.extend_from_slice(&full_seq.to_be_bytes());
+        rec.extend_from_slice(&body);
+        rec.extend_from_slice(&tag);
+        rustrtc::verif::emit("net", "P", "forged", json!({"dir": from.to_string(), "what": "INIT", "itag": itag, "itsn": itsn}));
+        self.forward(from, &rec).await;
+        true
+    }
+
     pub fn faults_pending(&self) -> usize {
         let st = self.state.lock();
         st.faults.iter().filter(|f| !f.used).count() + st.held.len()
